@@ -88,6 +88,7 @@ peg::parser! {
             non_posix_extensions_enabled() p:specific_operator("|&") { p }
 
         // N.B. We needed to move the function definition branch up to avoid conflicts with array assignment syntax.
+        #[cache]
         rule command() -> ast::Command =
             f:function_definition() { ast::Command::Function(f) } /
             c:simple_command() { ast::Command::Simple(c) } /
@@ -97,6 +98,7 @@ peg::parser! {
         // N.B. The arithmetic command is a non-sh extension.
         // N.B. The arithmetic for clause command is a non-sh extension.
         // N.B. The extended test command is a non-sh extension.
+        #[cache]
         pub(crate) rule compound_command() -> ast::CompoundCommand =
             non_posix_extensions_enabled() a:arithmetic_command() { ast::CompoundCommand::Arithmetic(a) } /
             non_posix_extensions_enabled() c:coproc_clause() { ast::CompoundCommand::Coprocess(c) } /
@@ -123,6 +125,7 @@ peg::parser! {
         pub(crate) rule arithmetic_expression() -> ast::UnexpandedArithmeticExpr =
             raw_expr:$(arithmetic_expression_piece()*) { ast::UnexpandedArithmeticExpr { value: raw_expr } }
 
+        #[cache]
         rule arithmetic_expression_piece() =
             // Allow a parenthesized expression (with matching opening and closing parens).
             specific_operator("(") (!specific_operator(")") arithmetic_expression_piece())* specific_operator(")") {} /
